@@ -72,6 +72,7 @@ def run_workers(prop, tier, seed, nshards, outdir, timeout, jobs):
     pending = list(range(nshards))
     running = {}
     results = []
+    retried = set()
     while pending or running:
         while pending and len(running) < jobs:
             sh = pending.pop(0)
@@ -95,8 +96,17 @@ def run_workers(prop, tier, seed, nshards, outdir, timeout, jobs):
                     del running[sh]
                 continue
             log.close()
-            results.append((sh, "ok" if rc == 0 and os.path.exists(out) else "crash", out))
             del running[sh]
+            if rc == 0 and os.path.exists(out):
+                results.append((sh, "ok", out))
+            elif rc not in (3, 4, 5) and sh not in retried:
+                # the worker died without a verdict of its own (signal, interpreter fault): run the shard once more
+                retried.add(sh)
+                os.replace(os.path.join(outdir, f"shard{sh}.log"), os.path.join(outdir, f"shard{sh}.log.first"))
+                print(f"NOTE shard {sh} exited with status {rc} without a result; retrying once")
+                pending.append(sh)
+            else:
+                results.append((sh, f"crash(rc={rc})", out))
     return sorted(results)
 
 
